@@ -72,7 +72,7 @@ CUSTOM_TYPES = {"A": CustomTypeA, "B": CustomTypeB, "G": CustomTypeG, "S": Stand
                 "T": TemperatureUnitType}
 BUILTIN_TYPES = ("S", "T")
 
-_CANDIDATES = ["foo", "qux", "zork", "vex", "nub", "zyx", "abc", "qqq", "www", "yyx", "zzx",
+_CANDIDATES = ["close", "open", "units", "foo", "qux", "zork", "vex", "nub", "zyx", "abc", "qqq", "www", "yyx", "zzx",
                "jjx", "vvx", "xqx", "qxx", "eex", "oox", "iix", "woof", "jiffy", "zap", "wib",
                "quux", "vork", "zub", "wex", "jux", "vob", "zix", "wox", "jax", "vix"]
 
